@@ -396,9 +396,10 @@ func c20Apply(root any, m c20Mut, idx int, dir string, r *c20Render) any {
 		return c20Set(root, n.path, ref("#"), false)
 	case "ref_empty":
 		return c20Set(root, n.path, ref(""), false)
-	case "ref_ext_scalar", "ref_ext_array", "ref_ext_empty", "ref_ext_nonjson", "ref_ext_missing":
+	case "ref_ext_scalar", "ref_ext_array", "ref_ext_empty", "ref_ext_nonjson", "ref_ext_missing", "ref_ext_tab", "ref_ext_bom", "ref_ext_null", "ref_ext_yamlsep":
 		name := strings.TrimPrefix(m.Op, "ref_") + ".json"
-		content := map[string]string{"ref_ext_scalar": "42", "ref_ext_array": "[1]", "ref_ext_empty": "", "ref_ext_nonjson": "<<<"}[m.Op]
+		content := map[string]string{"ref_ext_scalar": "42", "ref_ext_array": "[1]", "ref_ext_empty": "", "ref_ext_nonjson": "<<<",
+			"ref_ext_tab": "\n\t\n", "ref_ext_bom": "\xef\xbb\xbf", "ref_ext_null": "null", "ref_ext_yamlsep": "---\n"}[m.Op]
 		if m.Op != "ref_ext_missing" {
 			os.WriteFile(filepath.Join(dir, name), []byte(content), 0o644)
 		}
@@ -493,7 +494,7 @@ func c20Run(c *Case) []any {
 	if err := dec.Decode(&root); err != nil {
 		panic(err)
 	}
-	if tc.Base.Comps != "" && tc.Base.Comps != "full" {
+	if tc.Base.Comps != "" && tc.Base.Comps != "full" && tc.Base.Kind != "blob" {
 		root = c20Sparse(tc.Base.Kind, tc.Base.Comps, dir)
 	}
 	r := &c20Render{truncateAt: -1}
@@ -520,6 +521,13 @@ func c20Run(c *Case) []any {
 		for i := 0; i < 3 && len(data) > 0; i++ {
 			data[rng.Intn(len(data))] = byte(rng.Intn(256))
 		}
+	}
+	if tc.Base.Kind == "blob" {
+		b, ok := c20Blobs[tc.Base.Comps]
+		if !ok {
+			panic("harness: c20 blob " + tc.Base.Comps)
+		}
+		data = []byte(b)
 	}
 	line["bytes"] = len(data)
 	rootPath := filepath.Join(dir, "root.json")
@@ -559,6 +567,15 @@ func c20Run(c *Case) []any {
 		obs["validate_after"] = c20Stage(func() error { return doc.Validate(context.Background()) })
 	}
 	return []any{line}
+}
+
+// c20Blobs: the bytes of the blob bases of spec/Robust.tla
+var c20Blobs = map[string]string{
+	"empty": "", "space": " ", "tab": "\t", "nl_tab_nl": "\n\t\n", "sp_tab_sp": " \t ", "crlf": "\r\n", "crlf_tab": "\r\n\t\r\n",
+	"bom": "\xef\xbb\xbf", "bom_tab": "\xef\xbb\xbf\t", "null": "null", "arr": "[]", "obj": "{}", "str": "\"openapi\"", "num": "3.0", "true": "true",
+	"tilde": "~", "yaml_sep": "---\n", "yaml_sep_end": "---\n...\n", "yaml_tab_indent": "openapi: 3.0.3\ninfo:\n\ttitle: t\n", "nul_byte": "\x00",
+	"ff_bytes": "\xff\xfe\xff", "brace_open": "{", "bracket_open": "[", "colon": ":", "dash": "- ", "quote_open": "\"",
+	"anchor_loop": "a: &a [*a]\n", "merge_key_scalar": "<<: 1\nopenapi: 3.0.3\n",
 }
 
 func init() {
